@@ -55,6 +55,10 @@ def noise(draw, kind, maxlen):
         if b and b[-1] == 0xAA:
             b[-1] = 0xAB
         return bytes(b)
+    if kind == "half" and draw(st.integers(0, 2)) == 0:
+        # marker-free noise in which every read is likely to end in 0xAA (half a marker): AA fill / 00 AA 00 AA ...
+        unit = draw(st.sampled_from([b"\xaa", b"\x00\xaa", b"\x01\x02\x03\xaa", b"\xaa\xaa\x54\xaa"]))
+        return (unit * (n // len(unit) + 1))[: max(len(unit), n - n % len(unit))]
     if kind == "half":
         b = bytearray(draw(st.binary(min_size=n, max_size=n)))
         i = b.find(MARK)
@@ -193,6 +197,8 @@ def run_case(items, cuts, measure=True, big_noise=0):
         s.baseline = retained_bytes(c) if measure else 0
         if big_noise:
             blob = bytes((i * 7 + 3) % 251 for i in range(4096)).replace(MARK, b"\xaa\x54")
+            if big_noise % 2:
+                blob = b"\x00\xaa" * 2048            # odd sizes select the half-marker-at-every-read-end variant
             fed = 0
             while fed < big_noise:
                 link.feed(blob)
@@ -289,7 +295,7 @@ def _big(ctx: Ctx, item):
 def run(ctx: Ctx):
     n = 40 if ctx.quick else 500
     pmap(ctx, _work, [(n, 5000)] * 16)
-    sizes = [200_000] if ctx.quick else [1_000_000, 2_000_000, 5_000_000]
+    sizes = [200_000, 100_001] if ctx.quick else [1_000_000, 2_000_000, 5_000_000, 1_000_001]
     pmap(ctx, _big, [(sz,) for sz in sizes])
     if not ctx.quick:
         from ..fuzz import run_fuzz
